@@ -1023,6 +1023,12 @@ def run(ctx):
     djobs = gen_jobs(ctx, "dir", ctx.budget(24000, 90000), directed_case, NONE)
     run_names(ctx, "model-vs-real:directed", djobs)
     run_names(ctx, "model-vs-real:memo", gen_jobs(ctx, "memo", ctx.budget(4000, 12000), directed_case, MEMO, 4))
+    # names riding in cached / memoised results: the aliasing templates of C02 / C03 (one shared named element or Forward
+    # parsed at the same location by alternatives of which the first adds the same name later and then fails)
+    from . import c02, c03
+    tj = c02.name_backtrack_jobs(ctx, ctx.budget(700, 3000)) + [j for j in c03.template_jobs(ctx, ctx.budget(600, 3000))
+                                                               if not any(st[1] in ("cond_len",) or (st[1] == "action" and st[3][0] == "failSub") for st in j["prog"])]
+    run_names(ctx, "model-vs-real:memo-templates", [dict(prog=j["prog"], root=j["root"], inputs=j["inputs"], modes=MEMO) for j in tj])
     mult = 5 if (ctx.broken and not ctx.fail_inputs) else 1
     if mult > 1:   # (d) a broken obligation / correspondence without a failing input yet: search wider
         run_names(ctx, "search:directed", gen_jobs(ctx, "search", ctx.budget(24000, 90000) * 2, directed_case, NONE))
